@@ -65,6 +65,16 @@ def cases(rng, seeds):
                     out.append((f"{name}(n={n},ps={ps})", P("random", n=n, sizes=sizes, zero=z, one=[k for k in o if k <= n],
                                                             norepeat=True),
                                 lambda f=f, n=n, ps=ps, s=s: f(n, ps, seed=s)))
+        # explicit order lists, also not in increasing sequence
+        for orders in ([2, 1], [1, 2], [3, 1]):
+            for ps in ([1.0, 0.0], [0.0, 1.0], [0.3, 1.0]):
+                sizes = [d + 1 for d in orders]
+                z, o = pflags(ps, sizes)
+                for s in seeds[:2]:
+                    for name, f in (("fast_random_hypergraph", xgi.fast_random_hypergraph), ("random_hypergraph", xgi.random_hypergraph)):
+                        out.append((f"{name}(n={n},ps={ps},order={orders})",
+                                    P("random", n=n, sizes=sizes, zero=z, one=[k for k in o if k <= n], norepeat=True),
+                                    lambda f=f, n=n, ps=ps, orders=orders, s=s: f(n, ps, order=orders, seed=s)))
         for p in probs:
             for s in seeds:
                 out.append((f"fast_random_hypergraph(n={n},ps={p},order=2)",
@@ -160,6 +170,15 @@ def cases(rng, seeds):
         for mo in (1, 2, 3):
             out.append((f"flag_complex(G{links},max_order={mo})", P("flag", nodes=nodes, links=links, d=mo, norepeat=True),
                         lambda G=G, mo=mo: xgi.flag_complex(G, max_order=mo)))
+            for pv in itertools.product([0, 1], repeat=mo - 1):
+                # sizes 3.. are promoted with pv; a size with probability 1 whose supersets are not promoted
+                # must be complete, a size with probability 0 and no promoted superset must be absent
+                pv = list(pv)
+                one = [k + 3 for k, v in enumerate(pv) if v == 1]
+                zero = [k + 3 for k, v in enumerate(pv) if v == 0 and not any(pv[k + 1:])]
+                out.append((f"flag_complex(G{links},max_order={mo},ps={pv})",
+                            P("flag", nodes=nodes, links=links, d=mo, one=one, zero=zero),
+                            lambda G=G, mo=mo, pv=pv: xgi.flag_complex(G, max_order=mo, ps=pv, seed=1)))
             for s in seeds[:3]:
                 out.append((f"flag_complex(G{links},max_order={mo},ps=[0.5,..])", P("flag", nodes=nodes, links=links, d=mo),
                             lambda G=G, mo=mo, s=s: xgi.flag_complex(G, max_order=mo, ps=[0.5] * (mo - 1), seed=s)))
